@@ -205,6 +205,8 @@ var kinds = []string{"large-message-between", "plain", "reparse-before-execute",
 
 func genCase(t *rapid.T) Case {
 	c := Case{NConn: rapid.SampledFrom([]int{1, 1, 2, 2, 3}).Draw(t, "nconn")}
+	c.OptSeed = rapid.IntRange(0, 1000).Draw(t, "option-order")
+	c.CustomCaches = rapid.IntRange(0, 3).Draw(t, "custom-caches") == 2
 	tb := Table(c.NConn)
 	bs := make([]*builder, c.NConn)
 	class := map[string]bool{}
